@@ -255,7 +255,10 @@ def check_fd_ownership(P, ctx):
                     if r["k"] == "ref" and ("v", r.get("name")) in st:
                         ln = fn.sn(n["l"])
                         if ln["k"] in ("member", "un", "index"):
-                            return st - {("v", r["name"])}
+                            st = (st - {("v", r["name"])}) | {("moved", r["name"])}
+                            if ln["k"] == "member" and ln["field"]:
+                                st = st | {("f", ln["field"])}
+                            return st
                     # compound literal / struct initialiser mentioning the variable
                     for x in fn.walk(n["r"]):
                         m = fn.nodes[x]
@@ -270,6 +273,9 @@ def check_fd_ownership(P, ctx):
                     d = P.resolve_direct(fn, name) if name else None
                     for ai, a in enumerate(n["args"]):
                         r = fn.sn(a)
+                        if r["k"] == "ref" and ("moved", r.get("name")) in st and name in CLOSERS:
+                            bad.append(("double-close:" + r["name"], "`%s` is closed although the descriptor was already handed over to a field of the socket, whose "
+                                        "release function closes it too: the same descriptor number is closed twice (a stray close of whatever got the number in between)" % r["name"], nid))
                         if r["k"] == "ref" and ("v", r.get("name")) in st:
                             if name in CLOSERS or (d is not None and ai in tk.get(d, ())):
                                 st = st - {("v", r["name"])}
@@ -284,6 +290,8 @@ def check_fd_ownership(P, ctx):
                     sub = n.get("sub")
                     rv = fn.sn(sub) if sub is not None else None
                     for key in st:
+                        if key[0] == "moved":
+                            continue
                         if key[0] == "v":
                             if rv is not None and rv["k"] == "ref" and rv.get("name") == key[1]:
                                 continue
@@ -809,6 +817,8 @@ OWN_PAIRS = {
     "fopen": {"fclose"}, "opendir": {"closedir"}, "tconnect_create": {"tconnect_destroy"}, "timer_mgr_create": {"timer_mgr_destroy"},
     "ctl_create": {"ctl_destroy"}, "X509_STORE_new": {"X509_STORE_free"}, "PEM_X509_INFO_read_bio": {"sk_X509_INFO_pop_free", "OPENSSL_sk_pop_free"},
 }
+# creators that hand the object out through an out-parameter on success: name -> (argument index, releasers)
+OUT_CREATORS = {"item_load": (1, {"ut_free", "free"}), "ut_load_text_file": (1, {"ut_free", "free"}), "ut_load_file": (1, {"ut_free", "free"})}
 # external functions that take over the object given at these argument positions (OpenSSL set0/add0 conventions)
 OWN_SINKS_EXT = {"SSL_set_bio": (1, 2), "SSL_CTX_add0_chain_cert": (1,), "SSL_CTX_set0_chain": (1,), "SSL_CTX_set_cert_store": (1,),
                  "SSL_CTX_ctrl": (3,), "OPENSSL_sk_push": (1,), "sk_X509_push": (1,), "X509_STORE_add_crl": (), "BIO_push": (0, 1)}
@@ -827,7 +837,7 @@ def check_local_ownership(P, ctx):
     for f in P.functions:
         if not f.file.startswith(("libxcm/", "common/")) or f.name in OWN_PAIRS:
             continue
-        creators = [c for c in f.calls() if (f.nodes[c].get("callee") or "") in OWN_PAIRS]
+        creators = [c for c in f.calls() if (f.nodes[c].get("callee") or "") in OWN_PAIRS or (f.nodes[c].get("callee") or "") in OUT_CREATORS]
         if not creators:
             continue
         bad = []
@@ -871,6 +881,14 @@ def check_local_ownership(P, ctx):
                 if k == "call":
                     name = n.get("callee") or ""
                     defs, exts = P.callees(fn, nid)
+                    if name in OUT_CREATORS and OUT_CREATORS[name][0] < len(n["args"]):
+                        a = fn.sn(n["args"][OUT_CREATORS[name][0]])
+                        if a["k"] == "un" and a["op"] == "&":
+                            v = self._var(fn, a["sub"])
+                            if v is not None:
+                                # owned from here on; the failing edge of the call's own test drops it again (branch)
+                                st = frozenset(x for x in st if x[0] != v) | {(v, name)}
+                        return st
                     for ai, a in enumerate(n["args"]):
                         v = self._var(fn, a)
                         if v is None and (name in allrel or name.endswith("_free")):
@@ -885,7 +903,7 @@ def check_local_ownership(P, ctx):
                         if not owned:
                             continue
                         cr = owned[0][1]
-                        if name in OWN_PAIRS.get(cr, ()) or name in allrel or (name.endswith("_free") and ai == 0):
+                        if name in OWN_PAIRS.get(cr, ()) or name in allrel or (name.endswith("_free") and ai == 0) or (cr in OUT_CREATORS and name in OUT_CREATORS[cr][1]):
                             st = st - {owned[0]}
                         elif ai in OWN_SINKS_EXT.get(name, ()):
                             st = st - {owned[0]}
@@ -943,6 +961,11 @@ def check_local_ownership(P, ctx):
                 v = ln["name"] if ln["k"] == "ref" and ln.get("dk") == "local" else None
                 if v is not None and op == "==":
                     return frozenset(y for y in st if y[0] != v)     # NULL: nothing was obtained
+                if ln["k"] == "call" and (ln.get("callee") or "") in OUT_CREATORS and op == "<":
+                    a = fn.sn(ln["args"][OUT_CREATORS[ln["callee"]][0]])
+                    if a["k"] == "un" and a["op"] == "&":
+                        ov = self._var(fn, a["sub"])
+                        return frozenset(y for y in st if y[0] != ov)    # the call failed: nothing was handed out
                 return None
 
             def at_exit(self, fn, st, blk):
@@ -963,7 +986,7 @@ def check_local_ownership(P, ctx):
                 continue
             seen.add((v, cr))
             r9.violation("%s:%s<-%s" % (f.name, v, cr), "%s: the object in `%s` (from %s) is %s: it is neither released (%s), stored, returned nor handed over on this path"
-                         % (f.name, v, cr, why, "/".join(sorted(OWN_PAIRS[cr]))), loc=f.loc(nid) if nid is not None else f.file)
+                         % (f.name, v, cr, why, "/".join(sorted(OWN_PAIRS.get(cr) or OUT_CREATORS[cr][1]))), loc=f.loc(nid) if nid is not None else f.file)
         if not bad:
             r9.ok("%s: every locally obtained object has an owner at every exit" % f.qname, "ownership typestate on all paths")
     if ninst < 60:
